@@ -172,6 +172,36 @@ class Tuple(Kind):
         return out
 
 
+class Packed(Kind):
+    """A tuple packed into ONE datatype-sorted leaf, so that it can key a dict (Map needs single-leaf keys)."""
+    _sorts = {}
+
+    def __init__(self, *items):
+        self.items = list(items)
+        self.tuple = Tuple(*items)
+        self.name = 'Packed(%s)' % ', '.join(map(repr, items))
+        sorts = self.tuple.leaf_sorts()
+        key = tuple(str(x) for x in sorts)
+        if key not in Packed._sorts:
+            dt = z3.Datatype('Pk_' + '_'.join(str(x).replace(' ', '').replace('(', '').replace(')', '') for x in sorts))
+            dt.declare('mk', *[('f%d' % i, x) for i, x in enumerate(sorts)])
+            Packed._sorts[key] = dt.create()
+        self.dt = Packed._sorts[key]
+
+    def leaf_sorts(self):
+        return [self.dt]
+
+
+def pack(v, kind):
+    t = coerce(v, kind.tuple)
+    return V(kind, [kind.dt.mk(*t.terms)])
+
+
+def unpack(v):
+    k = v.kind
+    return V(k.tuple, [k.dt.accessor(0, i)(v.t) for i in range(len(k.tuple.leaf_sorts()))])
+
+
 class Rec(Kind):
     """dict used as a record: constant string keys, heterogeneous values.
 
@@ -381,6 +411,10 @@ def coerce(v, kind):
             inner = coerce(opt_inner(v), kind.inner)
             return V(kind, [opt_isnone(v)] + inner.terms)
         return opt_some(coerce(v, kind.inner))
+    if isinstance(kind, Packed) and isinstance(v.kind, Tuple):
+        return pack(v, kind)
+    if isinstance(v.kind, Packed) and isinstance(kind, (Tuple, Packed)):
+        return coerce(unpack(v), kind)
     if isinstance(kind, Tuple) and isinstance(v.kind, Tuple) and \
             len(kind.items) == len(v.kind.items):
         return vtuple_k(kind, [coerce(e, k) for e, k in zip(tuple_items(v), kind.items)])
